@@ -45,12 +45,47 @@
    compare with the running code at every step).  c18_queue_pop_clear_refuted,
    c18_waitclose_load_needed, c18_wheel_store_release_needed: a faulty variant of Pop races in
    the same analysis; removing the one synchronisation event an ordering rests on makes a
-   race-free run racy. *)
+   race-free run racy.
+
+   cachex (Cache and its Futures).  The same for the small-step model of cachex
+   (models/CacheSteps.v, machine cs_step CsFixed: one step per shared access of Load / Get2 / Set /
+   setValue / removeRotted / the worker, mutex-aware; stepped against the real code through the
+   yield hooks of cachex/verif_on.go by the C04 stream "call-steps").  models/RaceCache.v labels
+   every step: futures.Lock/Unlock = acquire/release on the shard mutex; the shard map d = one plain
+   location read/written under the lock; newFuture = plain writes of value, err and the zero
+   time cell (allocation counts as a write), then the two StorePointers (release); setValue =
+   plain writes of value, err and the cell &now BEFORE the StorePointer of updateTime (release)
+   and wg.Done() (release on the WaitGroup); getUpdateTime = LoadPointer (acquire) and a plain
+   read of the cell it points to; getFutureStatus reads future.err ONLY after a non-zero
+   updateTime was loaded (the code as it is after fix D3 and commit 4caabe5: status evaluated under
+   the shard lock); Future.Get2 = wg.Wait (acquire) then plain reads of value and err; sendJob =
+   release, the worker's receive = acquire on the message of that future (only the matching send).
+   c18_cache_model_race_free: for every well-formed initial memory (built by a set-up thread whose
+   events are part of the trace; rc_mem_ok), any number of threads, all programs over
+   Load / Get2 / Set / worker / sweep, all schedules of thread steps and clock ticks: the trace has
+   no happens-before race.  c18_cache_labels_match_sites: the first event of a labelled step is
+   the operation named by the yield site the step starts from.  c18_cache_unguarded_status_refuted:
+   the status check of the code before D3 races in the same labelled model;
+   c18_cache_channel_needed / c18_cache_store_release_needed: deleting the receive's acquire / the
+   release of setValue's updateTime store from a race-free run makes it racy.
+
+   ants Task / taskx callback task (protocol level; models/Ants.v and TaskQueue.v are timed event /
+   queue machines, not shared-access machines).  models/RaceTasks.v: the goroutines that touch a
+   task's result/err and their memory events - pool.Send allocates and sends the task; the
+   dispatcher receives it, per attempt sends the closure, takes doneChan or the deadline, writes
+   result/err, reads err, finally wg.Done; inner workers receive the closure and send on doneChan
+   at ANY later time; Get2 callers read after wg.Wait (taskx: producer, single consumer running Do
+   once, Get2 callers).  c18_ants_task_protocol_race_free / c18_taskx_task_protocol_race_free:
+   no happens-before race for any number of attempts, late handlers, Get2 callers, any schedule.
+   c18_ants_err_peek_refuted / c18_taskx_do_twice_refuted: Task.Err() called before Get2 returned,
+   and a second Do while Get2 callers read, DO race (usages outside the protocol). *)
 From Coq Require Import String.
 From Got Require Import Base Race RaceProofs RaceInst RaceHB RaceHBProofs RaceMonLemmas.
 From Got Require Import Queue QueueProofs RaceQueue RaceQueueProofs.
 From Got Require Import WaitClose RaceWaitClose RaceWaitCloseProofs.
 From Got Require Import Wheel RaceWheel RaceWheelProofs.
+From Got Require Import Cache CacheSteps RaceCache RaceCacheProofs.
+From Got Require Import RaceTasks RaceTasksProofs.
 Local Open Scope nat_scope.
 
 (* ---- the monitor decides the relational happens-before notion of a data race ---- *)
@@ -393,3 +428,179 @@ Theorem c18_wheel_labels_match_sites :
     end.
 Proof. exact rwh_sites. Qed.
 Print Assumptions c18_wheel_labels_match_sites.
+
+(* ================================================================== cachex: the labelled step model *)
+
+(* ---- every run of cs_step CsFixed labelled by models/RaceCache.v ----
+   rc_trace cfg m0 progs sched = the events of the set-up thread that built the initial memory m0
+   (thread id = number of threads), followed by the events of the scheduled items (CsRun tid = one
+   step of thread tid, CsTick dt = the clock advances: no event).  No bound on the number of
+   threads, the programs (CsLoad, CsGet2, CsSet, CsFinish = a worker receiving a job and running
+   setValue, CsSweep = removeRotted), the schedule, the configuration (expiry times).
+   rc_mem_ok m0: ids in range, the queued jobs distinct and not complete (a boolean; true for the
+   empty cache and for every set-up of the C04 stream, c18_cache_stream_setups_ok). *)
+Theorem c18_cache_model_race_free :
+  forall (cfg : c_cfg) (m0 : c_state) (progs : list (list cs_op)) (sched : list cs_item),
+    rc_mem_ok m0 = true -> ~ hb_race (rc_trace cfg m0 progs sched).
+Proof. exact rc_model_race_free. Qed.
+Print Assumptions c18_cache_model_race_free.
+
+Theorem c18_cache_model_race_free_empty :
+  forall (cfg : c_cfg) (progs : list (list cs_op)) (sched : list cs_item),
+    ~ hb_race (rc_trace cfg c_init progs sched).
+Proof. exact rc_model_race_free_empty. Qed.
+Print Assumptions c18_cache_model_race_free_empty.
+
+Theorem c18_cache_model_conflicts_ordered :
+  forall (cfg : c_cfg) (m0 : c_state) (progs : list (list cs_op)) (sched : list cs_item) (i j : nat),
+    rc_mem_ok m0 = true ->
+    i < j -> j < length (rc_trace cfg m0 progs sched) ->
+    hb_conflict (rc_trace cfg m0 progs sched) i j -> hb_hb (rc_trace cfg m0 progs sched) i j.
+Proof. exact rc_conflicts_ordered. Qed.
+Print Assumptions c18_cache_model_conflicts_ordered.
+
+(* the monitor run on the labelled run never flags, and the trace is well-formed for it *)
+Theorem c18_cache_model_monitor :
+  forall (cfg : c_cfg) (m0 : c_state) (progs : list (list cs_op)) (sched : list cs_item),
+    rc_mem_ok m0 = true ->
+    rc_raced (rc_run (rc_nthr progs) (rc_trace cfg m0 progs sched)) = false
+    /\ hb_wf (rc_nthr progs) (rc_trace cfg m0 progs sched).
+Proof. intros cfg m0 progs sched H. split; [apply rc_monitor_silent; exact H|apply rc_trace_wf]. Qed.
+Print Assumptions c18_cache_model_monitor.
+
+Theorem c18_cache_stream_setups_ok : forallb rc_mem_ok rc_ex_inits = true.
+Proof. exact rc_ex_inits_ok. Qed.
+Print Assumptions c18_cache_stream_setups_ok.
+
+(* the access-table rows the labelling was read off are rows of the table the check regenerates *)
+Theorem c18_cache_rows_in_table : rc_rows_in_table = true.
+Proof. exact rc_rows_ok. Qed.
+Print Assumptions c18_cache_rows_in_table.
+
+(* ---- non-vacuity: Load creates future 0 (thread 0) while Set (thread 3) waits for the shard
+   mutex; the worker (thread 1) receives the job and completes the future; Get2 (thread 2)
+   checks its status and reads it; then Set replaces the entry.
+   5 = newFuture's initialisation of value, overwritten by the worker's setValue at 14
+       (send 12 -> receive 13);
+   14 = the worker's write of value, read by Get2 at 28 (wg.Done 19 -> wg.Wait 27);
+   15 = the worker's write of err, read by the STATUS CHECK at 24 without waiting for wg
+       (StorePointer updateTime 17 -> LoadPointer 22);
+   10 = Load's map write, against Set's map write at 42 (Unlock 11 -> Lock 30);
+   21 = Get2's map read, against the same write (Unlock 26 -> Lock 30) *)
+Example c18_cache_model_nonvacuous :
+  let progs := [[CsLoad 0%Z]; [CsFinish 5%Z 0%Z]; [CsGet2 0%Z]; [CsSet 0%Z 3%Z 0%Z]] in
+  let sched := map CsRun [0;3;0;3;0;0;0; 1;1;1;1; 2;2;2;2;2;2;2;2; 3;3;3;3;3] in
+  let tr := rc_trace rc_ex_cfg c_init progs sched in
+  length tr = 44 /\
+  hb_conflict tr 5 14 /\ hb_hb tr 5 14 /\
+  hb_conflict tr 14 28 /\ hb_hb tr 14 28 /\
+  hb_conflict tr 15 24 /\ hb_hb tr 15 24 /\
+  hb_conflict tr 10 42 /\ hb_hb tr 10 42 /\
+  hb_conflict tr 21 42 /\ hb_hb tr 21 42.
+Proof.
+  cbv zeta. remember (rc_trace _ _ _ _) as tr eqn:E. vm_compute in E. subst tr.
+  split; [reflexivity|]. repeat split.
+  - apply (rm_conflict_intro _ 5 14 0 1 (RWrite 1) (RWrite 1) 1); try reflexivity; [discriminate|left; reflexivity].
+  - apply (rm_hb_chain _ 5 12 13 14 0 1 (RWrite 1) (RRel 4) (RAcq 4) (RWrite 1) 4); try reflexivity; lia.
+  - apply (rm_conflict_intro _ 14 28 1 2 (RWrite 1) (RRead 1) 1); try reflexivity; [discriminate|left; reflexivity].
+  - apply (rm_hb_chain _ 14 19 27 28 1 2 (RWrite 1) (RRel 3) (RAcq 3) (RRead 1) 3); try reflexivity; lia.
+  - apply (rm_conflict_intro _ 15 24 1 2 (RWrite 2) (RRead 2) 2); try reflexivity; [discriminate|left; reflexivity].
+  - apply (rm_hb_chain _ 15 17 22 24 1 2 (RWrite 2) (RRel 1) (RAcq 1) (RRead 2) 1); try reflexivity; lia.
+  - apply (rm_conflict_intro _ 10 42 0 3 (RWrite 0) (RWrite 0) 0); try reflexivity; [discriminate|left; reflexivity].
+  - apply (rm_hb_chain _ 10 11 30 42 0 3 (RWrite 0) (RRel 0) (RAcq 0) (RWrite 0) 0); try reflexivity; lia.
+  - apply (rm_conflict_intro _ 21 42 2 3 (RRead 0) (RWrite 0) 0); try reflexivity; [discriminate|right; reflexivity].
+  - apply (rm_hb_chain _ 21 26 30 42 2 3 (RRead 0) (RRel 0) (RAcq 0) (RWrite 0) 0); try reflexivity; lia.
+Qed.
+
+(* ---- the analysis discriminates ---- *)
+Theorem c18_cache_unguarded_status_refuted :
+  hb_race (rc_trace_gen true rc_ex_cfg c_init [[CsLoad 0%Z]; [CsFinish 5%Z 0%Z]; [CsLoad 0%Z]]
+             (map CsRun [0;0;0;0;0; 1; 2;2;2;2; 1])).
+Proof. exact rc_unguarded_status_refuted. Qed.
+Print Assumptions c18_cache_unguarded_status_refuted.
+
+Theorem c18_cache_channel_needed :
+  let tr := rc_trace rc_ex_cfg c_init [[CsLoad 0%Z]; [CsFinish 5%Z 0%Z]] (map CsRun [0;0;0;0;0; 1;1]) in
+  nth_error tr 13 = Some (1, RAcq (rc_ch 0)) /\ ~ hb_race tr /\ hb_race (firstn 13 tr ++ skipn 14 tr).
+Proof. exact rc_channel_needed. Qed.
+Print Assumptions c18_cache_channel_needed.
+
+Theorem c18_cache_store_release_needed :
+  let tr := rc_trace rc_ex_cfg c_init [[CsLoad 0%Z]; [CsFinish 5%Z 0%Z]; [CsGet2 0%Z]]
+              (map CsRun [0;0;0;0;0; 1;1;1; 2;2;2;2;2]) in
+  nth_error tr 17 = Some (1, RRel (rc_ut 0)) /\ ~ hb_race tr /\ hb_race (firstn 17 tr ++ skipn 18 tr).
+Proof. exact rc_store_release_needed. Qed.
+Print Assumptions c18_cache_store_release_needed.
+
+(* ---- the labelling agrees with the yield sites of cachex/verif_on.go (cs_site) ---- *)
+Theorem c18_cache_labels_match_sites :
+  forall (cfg : c_cfg) (m : c_state) (pc : cs_pc),
+    match cs_site pc with
+    | 1%Z => rc_label cfg m pc = [RAcq rc_mu]
+    | 2%Z => exists e rest, rc_label cfg m pc = e :: rest /\ ~ rm_sync e
+    | 0%Z | 3%Z => rc_label cfg m pc = []
+    | 4%Z => exists f rest, rc_label cfg m pc = RAcq (rc_ut f) :: rest
+    | 5%Z => exists f rest, rc_label cfg m pc = RRead (rc_err f) :: rest
+    | 6%Z => exists f rest, rc_label cfg m pc = RAcq (rc_pr f) :: rest
+    | 7%Z => exists f, rc_label cfg m pc = [RRel (rc_ut f)]
+    | 8%Z => exists f rest, rc_label cfg m pc = RRel (rc_pr f) :: RRel (rc_wg f) :: rest
+                            /\ Forall (fun e => forall o, ~ hb_is_acq e o) rest
+    | 9%Z => exists f, rc_label cfg m pc = [RRel (rc_ch f)]
+    | 10%Z => exists f, rc_label cfg m pc = [RAcq (rc_wg f); RRead (rc_val f); RRead (rc_err f)]
+    | 100%Z => Forall (fun e => ~ rm_sync e) (rc_label cfg m pc)
+    | _ => True
+    end.
+Proof. exact rc_sites. Qed.
+Print Assumptions c18_cache_labels_match_sites.
+
+(* ================================================================== ants / taskx task results: labelled protocols *)
+
+(* rt_atrace retry readers sched: thread 0 = pool.Send, 1 = the dispatcher (run / runTaskOnce,
+   retry attempts), 2+i = the inner worker of attempt i (may send its result at any later time),
+   2+retry+j = a Get2 caller.  Schedule items (thread, take doneChan if possible, attempt ended
+   without error).  No bound on retry, readers, schedule. *)
+Theorem c18_ants_task_protocol_race_free :
+  forall (retry readers : nat) (sched : list rt_item), ~ hb_race (rt_atrace retry readers sched).
+Proof. exact rt_ants_race_free. Qed.
+Print Assumptions c18_ants_task_protocol_race_free.
+
+(* rt_xtrace readers sched: thread 0 = the producer (SendCallback), 1 = the single consumer
+   (receive, Do once), 2+j = a Get2/Get1 caller *)
+Theorem c18_taskx_task_protocol_race_free :
+  forall (readers : nat) (sched : list nat), ~ hb_race (rt_xtrace readers sched).
+Proof. exact rt_taskx_race_free. Qed.
+Print Assumptions c18_taskx_task_protocol_race_free.
+
+Theorem c18_task_rows_in_table : rt_rows_in_table = true.
+Proof. exact rt_rows_ok. Qed.
+Print Assumptions c18_task_rows_in_table.
+
+(* usages outside the protocol race: Task.Err() without waiting for Get2 (ants), a second Do
+   by the consumer while a released Get2 caller reads (taskx) *)
+Theorem c18_ants_err_peek_refuted :
+  hb_race (rt_atrace_peek 2 1 [(0, true, false); (1, true, false); (1, true, false); (4, true, false); (1, true, false)]).
+Proof. exact rt_ants_err_peek_refuted. Qed.
+Print Assumptions c18_ants_err_peek_refuted.
+
+Theorem c18_taskx_do_twice_refuted : hb_race (rt_xtrace_twice 1 [0; 1; 1; 1; 1; 2]).
+Proof. exact rt_taskx_do_twice_refuted. Qed.
+Print Assumptions c18_taskx_do_twice_refuted.
+
+(* non-vacuity: two attempts, the first times out and its worker sends late (after the task is
+   complete), the second is taken from doneChan; a Get2 caller reads.
+   0 = the allocation's write of result, overwritten by the dispatcher at 8 (send 2 -> receive 3);
+   13 = the dispatcher's last write of result, read by Get2 at 20 (wg.Done 17 -> wg.Wait 19) *)
+Example c18_ants_task_protocol_nonvacuous :
+  let tr := rt_atrace 2 1 [(0,true,false); (1,true,false); (1,true,false); (2,true,false); (2,true,false);
+                           (1,true,false); (1,true,false); (3,true,false); (1,true,false); (1,true,false);
+                           (3,true,false); (4,true,false)] in
+  length tr = 22 /\
+  hb_conflict tr 0 8 /\ hb_hb tr 0 8 /\ hb_conflict tr 13 20 /\ hb_hb tr 13 20.
+Proof.
+  cbv zeta. remember (rt_atrace _ _ _) as tr eqn:E. vm_compute in E. subst tr.
+  split; [reflexivity|]. repeat split.
+  - apply (rm_conflict_intro _ 0 8 0 1 (RWrite 1) (RWrite 1) 1); try reflexivity; [discriminate|left; reflexivity].
+  - apply (rm_hb_chain _ 0 2 3 8 0 1 (RWrite 1) (RRel 0) (RAcq 0) (RWrite 1) 0); try reflexivity; lia.
+  - apply (rm_conflict_intro _ 13 20 1 4 (RWrite 1) (RRead 1) 1); try reflexivity; [discriminate|left; reflexivity].
+  - apply (rm_hb_chain _ 13 17 19 20 1 4 (RWrite 1) (RRel 1) (RAcq 1) (RRead 1) 1); try reflexivity; lia.
+Qed.
